@@ -1,5 +1,9 @@
 CONSTANT PresentAt <- MCPresentAt
 CONSTANT StaleReuse = FALSE
+CONSTANT SwapShorter = FALSE
+CONSTANT DefaultBatch = 2
+CONSTANT SwitchAt = 1
+CONSTANT AdaptAt = 2
 CONSTANT SharedHandle = TRUE
 CONSTANT MaxLen = 3
 CONSTANT MaxT = 2
@@ -9,5 +13,7 @@ NEXT Next
 INVARIANT ScheduleIndependent
 INVARIANT SlotsRight
 INVARIANT HandleFresh
+INVARIANT PartsCover
+INVARIANT ConfigSane
 INVARIANT Returns
 CHECK_DEADLOCK FALSE
